@@ -56,9 +56,64 @@ pub(crate) fn v4_of(t: &Term) -> Option<Ipv4Addr> {
     Some(Ipv4Addr::from(<[u8; 4]>::try_from(&b[..]).ok()?))
 }
 
-pub(crate) const PARSE_FAMILIES: [Family; 4] = [Family::IPV4, Family::IPV6, Family::IPV4_MC, Family::IPV6_MC];
+pub(crate) const PARSE_FAMILIES: [Family; 11] = [
+    Family::IPV4,
+    Family::IPV6,
+    Family::IPV4_MC,
+    Family::IPV6_MC,
+    Family::IPV4_VPN,
+    Family::IPV6_VPN,
+    Family::IPV4_MPLS,
+    Family::IPV6_MPLS,
+    Family::IPV4_FLOWSPEC,
+    Family::L2VPN_EVPN,
+    Family::RTC,
+];
+
+/// NLRI of a family without public constructors: let the repository's decoder build it from its wire form (an
+/// UPDATE with MP_REACH_NLRI holding just this NLRI); accepted only if it re-encodes to the same bytes.
+fn nlri_via_decoder(fam: Family, b: &[u8]) -> Option<Nlri> {
+    let nh: Vec<u8> = match fam {
+        Family::IPV4_FLOWSPEC | Family::IPV6_FLOWSPEC => vec![],
+        Family::IPV4_VPN | Family::IPV6_VPN => vec![0, 0, 0, 0, 0, 0, 0, 0, 10, 0, 0, 1],
+        _ => vec![10, 0, 0, 1],
+    };
+    let mut mp: Vec<u8> = vec![];
+    mp.extend_from_slice(&fam.afi().to_be_bytes());
+    mp.push(fam.safi());
+    mp.push(nh.len() as u8);
+    mp.extend_from_slice(&nh);
+    mp.push(0);
+    mp.extend_from_slice(b);
+    let mut attrs: Vec<u8> = vec![0x40, 1, 1, 0, 0x40, 2, 0, 0x90, 14];
+    attrs.extend_from_slice(&(mp.len() as u16).to_be_bytes());
+    attrs.extend_from_slice(&mp);
+    let mut f = vec![0xffu8; 16];
+    f.extend_from_slice(&((23 + attrs.len()) as u16).to_be_bytes());
+    f.extend_from_slice(&[2, 0, 0]);
+    f.extend_from_slice(&(attrs.len() as u16).to_be_bytes());
+    f.extend_from_slice(&attrs);
+    let r = catch_unwind(AssertUnwindSafe(|| {
+        let mut codec = bgp::PeerCodec::new();
+        codec.extended_length = true;
+        codec.set_family(fam, bgp::FamilyState::default());
+        let parsed = codec.parse_message(&f).ok()?;
+        let v: Vec<bgp::Message> = rustybgp_packet::validate_message(parsed, false).ok()?.collect();
+        match v.as_slice() {
+            [bgp::Message::Update(bgp::Update::Reach { family, entries, .. })] if *family == fam && entries.len() == 1 => {
+                Some(entries[0].nlri.clone())
+            }
+            _ => None,
+        }
+    }))
+    .ok()??;
+    if r.encode_to_bytes() == b { Some(r) } else { None }
+}
 
 pub(crate) fn nlri_of(fam: Family, b: &[u8]) -> Option<Nlri> {
+    if !matches!(fam, Family::IPV4 | Family::IPV4_MC | Family::IPV6 | Family::IPV6_MC) {
+        return nlri_via_decoder(fam, b);
+    }
     let mask = *b.first()?;
     let n = (mask as usize).div_ceil(8);
     if b.len() != 1 + n {
@@ -945,8 +1000,55 @@ pub(crate) fn g_nh(r: &mut Rng, v6: bool) -> Term {
     }
 }
 
+/// UPDATEs of the families without public NLRI constructors (VPNv4, labeled IPv4, flowspec IPv4, EVPN): wire NLRI
+/// from a small pool, 1..3 entries, next hop as the family wants it.
+pub(crate) fn g_update_other(r: &mut Rng) -> Term {
+    let rd = [0u8, 0, 0xfd, 0xe9, 0, 0, 0, 1];
+    let k = r.below(4);
+    let fam = [Family::IPV4_VPN, Family::IPV4_MPLS, Family::IPV4_FLOWSPEC, Family::L2VPN_EVPN][k as usize];
+    let mk = |i: u8| -> Vec<u8> {
+        match k {
+            0 => {
+                let mut b = vec![112, 0, 6, 0x41];
+                b.extend_from_slice(&rd);
+                b.extend_from_slice(&[10, 1, i]);
+                b
+            }
+            1 => vec![48, 0, 6, 0x41, 10, 2, i],
+            2 => vec![5, 1, 24, 10, 3, i],
+            _ => {
+                let mut b = vec![3, 17];
+                b.extend_from_slice(&rd);
+                b.extend_from_slice(&[0, 0, 0, i, 32, 10, 0, 0, 1]);
+                b
+            }
+        }
+    };
+    let n = 1 + r.below(3) as u8;
+    let ap = k != 2 && r.chance(1, 3);
+    let wd = r.chance(1, 4);
+    let ents: Vec<Term> = (0..n)
+        .map(|i| {
+            let mut b = mk(i);
+            if wd && k == 1 {
+                // a withdrawn labeled prefix as the decoder stores it (RFC 8277 §2.4: the label is not significant)
+                b[1..4].copy_from_slice(&[0, 0, 1]);
+            }
+            Term::list(vec![Term::nat(if ap { 1 + i as u32 } else { 0 }), Term::bytes(&b)])
+        })
+        .collect();
+    if wd {
+        return Term::tag("unreach", vec![Term::nat(fam_num(fam)), Term::list(ents)]);
+    }
+    let nh = if k == 2 { Term::atom("none") } else { Term::bytes(&pick_v4(r)) };
+    Term::tag("reach", vec![Term::nat(fam_num(fam)), Term::list(ents), nh, Term::list(g_attrs(r, 0))])
+}
+
 /// An UPDATE content term. `n` entries.
 pub(crate) fn g_update(r: &mut Rng, tier_big: bool) -> Term {
+    if r.chance(1, 7) {
+        return g_update_other(r);
+    }
     let fam = *r.pick(&[Family::IPV4, Family::IPV4, Family::IPV6, Family::IPV6, Family::IPV4_MC, Family::IPV6_MC]);
     let v6 = fam.afi() == 2;
     let kind = r.below(10);
